@@ -322,8 +322,8 @@ func (in *Inst) frameCheck(con *Contract, rp retPoint, ri int) {
 			continue
 		}
 		if strings.HasPrefix(name, "g:") {
-			if gv := e.W.ghosts[name[2:]]; gv != nil && gv.Scratch {
-				continue
+			if gv := e.W.ghosts[name[2:]]; gv != nil && gv.Scratch && !e.W.ghostNamesOf(con)[name[2:]] {
+				continue // callers treat this function as changing it (see applyContract)
 			}
 			if !ghostMod[name] {
 				e.obls = append(e.obls, &Obligation{Name: fmt.Sprintf("%s#frame:%s@ret%d", e.fname, name, ri), Kind: "frame", Pos: rp.pos, Step: len(e.steps), Reach: rp.st.reach, Goal: sEq(ce, cr), Blk: rp.blk})
